@@ -90,6 +90,10 @@ def work(item, tier, seed):
     env.install()
     res = H.Result()
     pname, chunk, nchunks = item
+    if pname == "@root":
+        # Scan / Vmap / Cond objects edited directly (not as sub-calls): recorded arguments + coherence
+        gfi.check_root_edits(res, PROP, "regenerate", seed)
+        return res
     prog, argsl, _t = FAMILY[pname]
     fn = L.compile_prog(prog)
     key = jax.random.key(seed * 32452843 + 9)
@@ -223,14 +227,14 @@ def work(item, tier, seed):
 
 
 def items(tier):
-    from mc.family import FAMILY, programs, tree_size
+    from mc.family import FAMILY, QUICK_GENERATED, programs, tree_size
     from mc import ref as R
 
     its = []
     # programs whose full choice tree exceeds 5000 leaves are explored by C01/C08 only (every subset /
     # selection multiplies the tree)
     for pname in programs(tier, max_tree=5000):
-        if "[" in pname and (pname.count("[") > 1 or tree_size(pname) > 300):
+        if "[" in pname and pname not in QUICK_GENERATED and (pname.count("[") > 1 or tree_size(pname) > 100):
             continue  # generated compositions: depth 1 with small trees here; all of them in C01 / C03
         prog, argsl, _t = FAMILY[pname]
         k = len(R.leaf_paths(prog))
@@ -239,6 +243,7 @@ def items(tier):
             nch *= 4  # hundreds of selection shapes per program: finer items keep 16 workers busy to the end
         for c in range(nch):
             its.append((pname, c, nch))
+    its.append(("@root", 0, 1))
     return its
 
 
